@@ -17,7 +17,7 @@ CHECKS = {
    note="64-bit hashing is not evaluated in TLA+: positions come from the code (logged). Exhaustive only for the tiny table."),
 }
 
-STORE_T = "TLA+ spec Store.tla (write pipeline: shard map, bounded queue, maintenance batches, eviction, expiry, Wait, Close) model-checked by TLC; TLC behaviours (StoreSim) replayed into the real Store by a gate scheduler over verif hook points; every recorded trace validated by TLC (StoreTrace observer)"
+STORE_T = "TLA+ spec Store.tla (write pipeline: shard map, bounded queue, maintenance batches, eviction, expiry, Wait, Close) model-checked by TLC; TLC behaviours (StoreSim) replayed into the real Store by a gate scheduler over verif hook points; every recorded trace validated by TLC (StoreTrace observer); for C01 C02 C05 C06 C10 C13 C16 also sequential programs through the public API (cache.go / builder.go) validated by TLC against the sequential observer ApiTrace.tla"
 CHECKS.update({
  "C01": dict(level="model_checking", ref="4 C01", technique=STORE_T,
    text="TLC explores all interleavings of two-phase writes, deletes, evictions and expiries of Store.tla for small constants (removal of a map slot is by identity); "
